@@ -432,6 +432,19 @@ func Scenarios(thorough bool) []Scenario {
 		long = append(long, Scenario{Name: "s16-gc-due||tick;start;receive", Pre: pre, Threads: [][]Step{{S("X")}, {{Kind: "tick"}, S("T"), R("m1", "T", 1)}}, Bound: 3})
 		long = append(long, Scenario{Name: "s16b-gc-due||tick;tick;start;receive", Pre: pre, Threads: [][]Step{{S("X"), S("X")}, {{Kind: "tick"}, {Kind: "tick"}, S("T"), R("m1", "T", 1)}}, Bound: 2})
 	}
+	// topics that a sender opened and that expired unstarted give their slots back: afterwards the
+	// sender's next topic is buffered and handed over like any other (limit 1 and limit 2)
+	for _, lim := range []int{1, 2} {
+		var st []Step
+		for i := 0; i <= lim; i++ {
+			st = append(st, R(fmt.Sprintf("old%d", i), fmt.Sprintf("O%d", i), 1))
+		}
+		st = append(st, ep(8)...)
+		st = append(st, S("Y"))
+		st = append(st, ep(2)...)
+		st = append(st, S("Y"), R("new1", "N", 1), R("new2", "N", 1), S("N"))
+		long = append(long, Scenario{Name: fmt.Sprintf("s17-limit%d-expired-topics-give-their-slots-back", lim), MaxTopics: lim, Threads: [][]Step{st}, Bound: 0})
+	}
 	long = append(long, Scenario{Name: "s13-held-topic-in-use-survives-gc", Threads: [][]Step{held}, Bound: 0})
 	for e := 5; e <= 20; e++ {
 		long = append(long, Scenario{Name: fmt.Sprintf("s12-long-lived-topic-%d-epochs", e), Threads: [][]Step{longLived(e)}, Bound: 0})
@@ -460,6 +473,7 @@ func Scenarios(thorough bool) []Scenario {
 		{Name: "10-gc-stored-R||Sother", Pre: []Step{R("m0", "Z", 1)}, Threads: [][]Step{{R("m1", "Z", 1)}, {S("X")}}, Bound: 100},
 		{Name: "11-tick||S||R", Threads: [][]Step{{{Kind: "tick"}}, {S("X")}, {R("m1", "X", 1)}}, Bound: b3},
 		{Name: "12-tick||S;Sother", Pre: []Step{R("m0", "Z", 1)}, Threads: [][]Step{{{Kind: "tick"}}, {S("X"), S("Y")}}, Bound: 100},
+		{Name: "14-stored-S||S", Pre: []Step{R("m0", "X", 1), R("m1", "X", 2)}, Threads: [][]Step{{S("X")}, {S("X"), R("m2", "X", 1)}}, Bound: 100},
 		{Name: "8-stored-R||S", Pre: []Step{R("m0", "X", 1)}, Threads: [][]Step{{R("m1", "X", 1)}, {S("X")}}, Bound: 100},
 		{Name: "9-stored-RR||S", Pre: []Step{R("m0", "X", 1)}, Threads: [][]Step{{R("m1", "X", 1), R("m2", "X", 1)}, {S("X")}}, Bound: 100},
 	}...)
